@@ -197,6 +197,22 @@ Theorem C08_agree_sound ce steps : c08 ce steps = Agree ->
 Proof. exact (c08_agree_sound ce steps). Qed.
 Print Assumptions C08_agree_sound.
 
+(* clause 12 of the check (ChkIso.p_c08x: ANY contract whose code ran exactly once in a successful call without
+   error replies has window-after = window-before + that body's writes; the program is found by node number, so
+   it is claimed for the harness's scenarios and is NOT part of C08_model_ok, whose clause 11 is the same
+   statement for the root contract).  An Agree verdict implies it held: *)
+Theorem C08_agree_sound_x ce steps : c08 ce steps = Agree -> oracle_isteps_x steps 0 = None.
+Proof. exact (c08_agree_sound_x ce steps). Qed.
+Print Assumptions C08_agree_sound_x.
+
+(* clause 11 on the model, for all inputs: the root contract, if its code ran exactly once in a successful call,
+   ends with its old window plus exactly its own writes and removes — nothing else in the tree touched it,
+   nothing it wrote was lost *)
+Theorem root_writes_kept e op s : sorted_cstore s ->
+  root_writes_ok s (top_state (run_top e op s)) op (top_trace (run_top e op s)) (is_ok (top_outcome (run_top e op s))) = true.
+Proof. exact (root_writes_model e op s). Qed.
+Print Assumptions root_writes_kept.
+
 (* ---------- non-vacuity ---------- *)
 Local Open Scope N_scope.
 
@@ -272,3 +288,16 @@ Example check_runs :
                                     rb_keys := map (fun k => {| kr_key := kr_key k; kr_own := kr_own k; kr_raw := Some [9]; kr_get := kr_get k;
                                                                 kr_get_mut := kr_get_mut k |}) (rb_keys r) |}) (i_rb x) |} = Some 9.
 Proof. vm_compute. auto. Qed.
+
+(* clauses 11 / 12 on the model's own step and on a forged one in which the root contract b — which ran once and
+   created nothing at its own address — has lost the record it held before the call *)
+Example single_run_clauses :
+  let x := model_istep ex_ce (blk ex_env) (TExec [97] ex_msg) [] ex_state in
+  let lost := {| bank := bank (st_state (i_step x)); reg := reg (st_state (i_step x));
+                 cstore := [([98], [([0; 4; 98; 97; 110; 107], [7]); ([4], [4])]); ([100], [([0; 4; 98; 97; 110; 107], [9])])] |} in
+  let y := {| i_step := {| st_blk := st_blk (i_step x); st_op := st_op (i_step x);
+                           st_trace := [RCall 1 EExec [98] (Some [97]) [] (blk ex_env) 101 None; RObs 1 (VDump [([0; 4; 98; 97; 110; 107], [7]); ([1], [1])])];
+                           st_outcome := Ok [([], None)]; st_state := lost; st_other := 0; st_raw_same := false |};
+              i_before := ex_state; i_rb := map (model_rback lost []) (map fst (reg lost)) |} in
+  p_c08 x = None /\ p_c08x x = None /\ p_c08 y = Some 11 /\ p_c08x y = Some 12 /\ sorted_cstore ex_state.
+Proof. cbn zeta. repeat (split; [vm_compute; reflexivity|]). repeat constructor. Qed.
